@@ -601,6 +601,8 @@ func TestC10(t *testing.T) {
 		ran++
 	}
 	c.Exhaustive(fmt.Sprintf("every message length 0..%d x {secretbox, box, sealed box, sign, auth} with fixed keys", maxLen), maxLen+1)
+
+	c10Concurrent(c, t)
 }
 
 func splitBar(s string) []string {
